@@ -251,6 +251,7 @@ func (u *Universe) BuildAlphabet(winFrom, winUntil int64) {
 	add(u.MkSigned("dS", "deactivate", u.R[0], "", "", nil, SignedOpts{SigningKey: u.X[0]}))
 	add(u.MkSigned("dR", "deactivate", u.R[0], "", "", nil, SignedOpts{SignedKey: u.X[0], SigningKey: u.X[0]}))
 	add(u.MkSigned("rR", "recover", u.R[0], cm(u.R[1]), cm(u.U[1]), d1, SignedOpts{SignedKey: u.X[1], SigningKey: u.X[1]}))
+	add(u.MkSigned("uND", "update", u.U[0], "", cm(u.U[1]), k2, SignedOpts{OmitDelta: true}))
 	add(u.MkSigned("dO", "deactivate", u.R[0], "", "", nil, SignedOpts{SignedSuffix: "EiOtherSuffixxxxxxxxxxxxxxxxxxxxxxxxxxxxxxxxxxx"}))
 }
 
@@ -271,6 +272,9 @@ func ToAnchored(suffix string, ops []*ref.Op) []*operation.AnchoredOperation {
 	return out
 }
 
+// curCtx is the running check's context (used to report panics of in-process library calls as violations).
+var curCtx *hx.Ctx
+
 type unpubStore struct {
 	ops []*operation.AnchoredOperation
 }
@@ -288,7 +292,19 @@ func (s *unpubStore) Get(string) ([]*operation.AnchoredOperation, error) {
 }
 
 // SUTResolve resolves the history with the real OperationProcessor. order permutes the published ops returned by the store.
-func SUTResolve(pc protocol.Client, suffix string, ops []*ref.Op, order []int, opts ...document.ResolutionOption) (*protocol.ResolutionModel, error) {
+func SUTResolve(pc protocol.Client, suffix string, ops []*ref.Op, order []int, opts ...document.ResolutionOption) (rm *protocol.ResolutionModel, err error) {
+	defer func() {
+		if r := recover(); r != nil {
+			if _, ok := r.(budgetExceeded); ok {
+				panic(r)
+			}
+			if curCtx != nil {
+				curCtx.Violation(fmt.Sprintf("%s OperationProcessor.Resolve panicked: %v :: history [%s]", curCtx.ID, r, histString(ops)),
+					map[string]interface{}{"suffix": suffix, "history": replayOps(ops), "store_order": order, "panic": fmt.Sprint(r)})
+			}
+			rm, err = nil, fmt.Errorf("PANIC in Resolve: %v", r)
+		}
+	}()
 	var pub, unpub []*ref.Op
 	for _, o := range ops {
 		if o.Published() {
